@@ -184,4 +184,6 @@ FreshId == [][reply'.op = "New" => reply'.fresh]_vars
 (* design-level consequences *)
 MappedRight == \A p \in Pid : Resident(p) => fr[pt[p]].pid = p
 NonResidentOnDisk == \A p \in live : ~Resident(p) => disk[p] = latest[p]
+(* an unpinned resident page that differs from its disk image is marked dirty (otherwise its eviction loses it) *)
+DirtyRight == \A p \in live : (Resident(p) /\ fr[pt[p]].pin = 0 /\ fr[pt[p]].val # disk[p] /\ p \notin virgin) => fr[pt[p]].dirty
 ================================================================================
